@@ -28,7 +28,7 @@ PROPS = {
              "(thorough), random operation sequences (insert/get/extend/collect/JSON text/serde MapDeserializer with exact size hint/"
              "iterators with every positional adapter: nth, nth_back, rev().nth, rev().skip, last, len/size_hint/count, both ends; "
              "indexing vs get; every operation mirrored on a collection whose names are slices of shared buffers, so that a name which "
-             "is a prefix of another one starts at the same address) up to 25/60 ops, one case in forty a collection of 257..700 distinct names,  strings that end in line breaks, error chains of up to 40 entries, NaNs with sign / "
+             "is a prefix of another one starts at the same address) up to 25/60 ops, one case in forty a collection of 257..700 distinct names, bulk extend / collect / JSON batches of 33..90 entries with names repeated inside the batch,  strings that end in line breaks, error chains of up to 40 entries, NaNs with sign / "
              "payload / signalling bit, typed comparisons on boundary-biased values incl. neighbouring bit patterns, signed zeros "
              "and NaNs; non-trivial = sequence that re-inserts an existing name "
              "and has >= 3 lines; distinct by input text",
@@ -100,7 +100,7 @@ for _p in ["C02", "C03", "C04", "C06", "C07", "C08"]:
     PROPS[_p] = dict(suites=[("receiver", {Q: 1500, T: 40000})], rule=_RECV_RULE)
 PROPS["C02"]["rule"] += "non-trivial = >= 1 cut with an alive guest span and >= 4 events; distinct by input text"
 PROPS["C03"]["rule"] += "non-trivial = as C02 (cut with alive span), counted over cases; restored presentations are counted in input_distribution"
-PROPS["C04"]["rule"] += "non-trivial = as C02; cases with a span entered at the abort point are counted in input_distribution (nt:entered-at-abort)"
+PROPS["C04"]["rule"] += "one case in five also discards a small execution with nested spans on a tracing-subscriber Registry host with a capture layer (every span born in it must end up closed, no span current); non-trivial = as C02; cases with a span entered at the abort point are counted in input_distribution (nt:entered-at-abort)"
 PROPS["C06"]["rule"] += "non-trivial = >= 1 rejected event while >= 1 span is alive, or a cut with an alive span"
 PROPS["C07"]["rule"] += "non-trivial = >= 1 rejected event while >= 1 span is alive, or a cut with an alive span"
 PROPS["C08"]["rule"] += "non-trivial = as C02"
@@ -194,7 +194,8 @@ MANIFEST_TEXT["C08"] = dict(
 _CAP_RULE = ("capture suite: well-formed single-threaded programs (as C01) driven directly into Registry + capture layer(s); layer "
              "filters from {none, level threshold, name predicate, target-prefix predicate}, optional global LevelFilter layer, "
              "pass-through layers in every position, 1..3 capture layers, stale follows-from targets, one case in sixty a chain of "
-             "129..170 nested spans, one case in three reads the storages in mid-run (`probe`: descendants of a span walked and counted "
+             "129..170 nested spans or a 9..16-level \"caterpillar\" (every level a descended span plus later siblings), unbalanced exits "
+             "(Dispatch::exit on a span that is not entered), events whose explicit parent is the id of a dropped handle, one case in three reads the storages in mid-run (`probe`: descendants of a span walked and counted "
              "while capturing goes on); the whole storage is dumped "
              "through the public query API and every C17 law is cross-checked on it, including equality / order of handles at every pair of "
              "positions within a storage and against a second storage (another layer's, or a second run's); for C16 one case in three "
